@@ -513,11 +513,11 @@ namespace Pcore.Immut
 open Pcore.Generated
 
 /-- obligation over the regenerated table of field writes: each is a reviewed one -/
-theorem C08_field_writes_safe : FieldWritesSafe fieldWrites := by decide
+theorem C08_field_writes_safe : FieldWritesSafe helperCalls fieldWrites := by decide
 
 /-- ONE resolution leaves the value as it was — same observable content, hence the same walk — keeps its memos sound,
     and answers what the pure function answers -/
-theorem C08_resolve_frame (tbl : List FieldWrite) (ht : FieldWritesSafe tbl) (deep : Bool) (sc : List RV) (v : RV)
+theorem C08_resolve_frame (calls : HelperCalls) (tbl : List FieldWrite) (ht : FieldWritesSafe calls tbl) (deep : Bool) (sc : List RV) (v : RV)
     (hm : v.memoOK = true) :
     (resolveW (Writes.ofTable tbl) deep sc v).1.erase = v.erase ∧
     (resolveW (Writes.ofTable tbl) deep sc v).1.render = v.render ∧
@@ -529,7 +529,7 @@ theorem C08_resolve_frame (tbl : List FieldWrite) (ht : FieldWritesSafe tbl) (de
 
 /-- resolutions IN SEQUENCE under arbitrary scopes: the value is observably unchanged after all of them, and the n-th
     answer is what the ORIGINAL value resolves to under the n-th scope alone (a function of (value, scope)) -/
-theorem C08_resolve_history_free (tbl : List FieldWrite) (ht : FieldWritesSafe tbl) (v : RV) (hm : v.memoOK = true)
+theorem C08_resolve_history_free (calls : HelperCalls) (tbl : List FieldWrite) (ht : FieldWritesSafe calls tbl) (v : RV) (hm : v.memoOK = true)
     (scs : List (List RV)) :
     (resolveSeq (Writes.ofTable tbl) v scs).1.render = v.render ∧
     (resolveSeq (Writes.ofTable tbl) v scs).2.map answerText = scs.map (fun sc => answerText (resolve false sc v)) := by
@@ -543,7 +543,7 @@ theorem C08_resolve_history_free (tbl : List FieldWrite) (ht : FieldWritesSafe t
 theorem C08_resolve_impl (v : RV) (hm : v.memoOK = true) (scs : List (List RV)) :
     (resolveSeq (Writes.ofTable fieldWrites) v scs).1.render = v.render ∧
     (resolveSeq (Writes.ofTable fieldWrites) v scs).2.map answerText = scs.map (fun sc => answerText (resolve false sc v)) :=
-  C08_resolve_history_free fieldWrites C08_field_writes_safe v hm scs
+  C08_resolve_history_free helperCalls fieldWrites C08_field_writes_safe v hm scs
 
 /-- `['x', Deferred('$v', [Deferred('$k')])]` -/
 def seedList : RV := .arr [.str "x", .dfr "$v" [.dfr "$k" []]]
@@ -553,7 +553,7 @@ def seedScope (k : String) : List RV :=
 
 /-- non-vacuity: the hypotheses of the two theorems above hold of the regenerated table and of a value with a nested
     Deferred whose two scopes give different answers -/
-example : FieldWritesSafe fieldWrites ∧ seedList.memoOK = true ∧
+example : FieldWritesSafe helperCalls fieldWrites ∧ seedList.memoOK = true ∧
     (resolve false (seedScope "a") seedList).toOption.map RV.render = some "(a (s x78) (i 1))" ∧
     (resolve false (seedScope "b") seedList).toOption.map RV.render = some "(a (s x78) (i 2))" := by
   refine ⟨C08_field_writes_safe, by decide, by decide +kernel, by decide +kernel⟩
@@ -567,7 +567,7 @@ example : paramList.memoOK = true ∧
       some "(a (t x41727261795b5475706c655b496e74656765722c20416e795d5d))" ∧
     (resolveW (Writes.ofTable fieldWrites) false [] paramList).1.render = paramList.render := by
   refine ⟨by decide +kernel, by decide +kernel, ?_⟩
-  exact (C08_resolve_frame fieldWrites C08_field_writes_safe false [] paramList (by decide +kernel)).2.1
+  exact (C08_resolve_frame helperCalls fieldWrites C08_field_writes_safe false [] paramList (by decide +kernel)).2.1
 
 /-- the constructive converse (seeded change C08-s11): when `(*deferred).Resolve` stores the resolved arguments into the
     Deferred, (1) the first answer is still right, (2) the LIST that was resolved holds `Deferred('$v', ['a'])`
@@ -608,12 +608,24 @@ example : ¬ MutatorCallsSafe (mutatorNames.filter (· != "PutAll")) mutatorCall
 
 /-- the table of seeded change C08-s11 -/
 def tblMemo : List FieldWrite := ⟨"deferred", "arguments", "deferred.Resolve", .write⟩ :: fieldWrites
-example : ¬ FieldWritesSafe tblMemo := by decide
+example : ¬ FieldWritesSafe helperCalls tblMemo := by decide
 example : (Writes.ofTable tblMemo).dfrArgs = true := by decide
+/-- the same write extracted into a new unexported helper that `Resolve` calls is refused as well (no caller of the helper
+    has a reviewed write of `deferred.arguments`), and the model still executes it -/
+example : ¬ FieldWritesSafe (("deferred.resolveArgs", "deferred.Resolve", []) :: helperCalls)
+    (⟨"deferred", "arguments", "deferred.resolveArgs", .write⟩ :: fieldWrites) := by decide
+example : (Writes.ofTable (⟨"deferred", "arguments", "deferred.resolveArgs", .write⟩ :: fieldWrites)).dfrArgs = true := by
+  decide
+/-- harmless rewrites the side condition accepts: the DeferredType memo filled in a helper that `Resolve` calls under its
+    guard; the key index filled lazily from one more method; a construction write -/
+example : FieldWritesSafe (("DeferredType.fill", "DeferredType.Resolve", ["resolved"]) :: helperCalls)
+    (⟨"DeferredType", "resolved", "DeferredType.fill", .write⟩ :: fieldWrites) := by decide
+example : FieldWritesSafe helperCalls (⟨"Hash", "index", "Hash.Lookup", .lazyFill⟩ :: fieldWrites) := by decide
+example : FieldWritesSafe helperCalls (⟨"HashEntry", "value", "CopyEntry", .fresh⟩ :: fieldWrites) := by decide
 /-- other writes the white list refuses: a hash entry's value, a cache assigned outside its guard, a Sensitive's value -/
-example : ¬ FieldWritesSafe (⟨"HashEntry", "value", "HashEntry.Value", .write⟩ :: fieldWrites) := by decide
-example : ¬ FieldWritesSafe (⟨"Hash", "index", "Hash.Merge", .write⟩ :: fieldWrites) := by decide
-example : ¬ FieldWritesSafe (⟨"Sensitive", "value", "Sensitive.Unwrap", .reset⟩ :: fieldWrites) := by decide
+example : ¬ FieldWritesSafe helperCalls (⟨"HashEntry", "value", "HashEntry.Value", .write⟩ :: fieldWrites) := by decide
+example : ¬ FieldWritesSafe helperCalls (⟨"Hash", "index", "Hash.Merge", .write⟩ :: fieldWrites) := by decide
+example : ¬ FieldWritesSafe helperCalls (⟨"Sensitive", "value", "Sensitive.Unwrap", .reset⟩ :: fieldWrites) := by decide
 
 end Pcore.Immut
 
